@@ -25,7 +25,7 @@ REQUIRED_REACH = ["_sktime.py:_SktimeForecaster._update_y_X", "_sktime.py:_Sktim
                   "_sktime.py:_SktimeForecaster._detached_cutoff", "_ensemble.py:EnsembleForecaster.update",
                   "_pipeline.py:TransformedTargetForecaster.update", "_multiplexer.py:MultiplexForecaster.update", "theta.py:ThetaForecaster.update"]
 REQUIRED_MONITORS = ["memory", "cutoff", "refit-equivalence", "params-frozen", "forecast-from-new-cutoff", "update_predict.equivalence",
-                     "update_predict.labels", "update_predict.cutoff-restored", "memory.pipeline"]
+                     "update_predict.labels", "update_predict.cutoff-restored", "memory.pipeline", "absolute-horizon"]
 NOT_COVERED = ["data arriving out of time order", "exogenous data", "prediction intervals"]
 # ensembles with n_jobs=2 run under joblib's default (process-based) backend: members live in worker processes during fit / update
 ASSUMPTIONS = ["'refits on update' is decided per spec: leaf forecasters inheriting the default update and composites of those"]
@@ -380,6 +380,55 @@ def run_case(case, ctx):
                 check_state("after update_predict #%d" % k) if f.cutoff == cutoff else None
             desync = True   # the moving-cutoff run advanced nested members; only the outer cutoff is restored
             fh = fh_outer
+    # ---- a horizon given as absolute time points stays at those time points while the cutoff moves under updates -----------------
+    if case["dseed"] % 4 == 2:
+        from sktime.forecasting.base import ForecastingHorizon
+        c0 = int(y0.index[-1])
+        sizes = [2, 3]
+        steps0 = [sum(sizes) + 1 + h for h in fh]                     # still ahead of the cutoff after both updates
+        P = [c0 + s_ for s_ in steps0]
+        A, Bf = zoo.build(spec), zoo.build(spec)
+        try:
+            # the far horizon may not fit a short training series for window-based forecasters: then there is nothing to compare
+            Bf.fit(y0.copy(), fh=list(steps0))
+            okB = True
+        except Exception as e:  # noqa
+            okB = False
+            ctx.tag("absolute-horizon:far-horizon-infeasible:" + type(e).__name__)
+        okA = False
+        if okB:
+            okA, _ = ctx.call("fit:exception:" + spec[0], A.fit, y0.copy(), fh=ForecastingHorizon(P, is_relative=False))
+        posn = c0 + 1
+        for j, sz in enumerate(sizes):
+            if not (okA and okB):
+                break
+            b_ = pd.Series([vals.get(t, 50.0 + 0.1 * t) for t in range(posn, posn + sz)], index=pd.RangeIndex(posn, posn + sz))
+            posn += sz
+            okA, _ = ctx.call("update:exception:" + spec[0], A.update, b_.copy(), update_params=bool(j % 2))
+            okB, _ = ctx.call("update:exception:" + spec[0], Bf.update, b_.copy(), update_params=bool(j % 2))
+        if okA and okB:
+            cn = posn - 1
+            okp, pa = ctx.call("predict:exception:" + spec[0], A.predict)
+            if okp:
+                ctx.check("absolute-horizon", [int(v) for v in pa.index] == P, "absolute-horizon:forecast-not-at-the-requested-time-points-after-update:" + spec[0],
+                          "a forecaster fitted with an absolute horizon does not forecast those time points after updates", got=[int(v) for v in pa.index], expected=P)
+                if not need_fit:
+                    okq, pb = ctx.call("predict:exception:" + spec[0], Bf.predict, [t - cn for t in P])
+                    if okq:
+                        ctx.check("absolute-horizon", _same(pa.values, pb.values), "absolute-horizon:differs-from-relative-twin-after-update:" + spec[0],
+                                  "after updates, the forecast for absolute time points differs from the same time points requested as steps from the new cutoff",
+                                  got=pa.values.tolist(), expected=pb.values.tolist())
+                for m_ in (getattr(A, "forecasters_", None) or []):
+                    if getattr(m_, "_fh", None) is not None:
+                        try:
+                            mi = [int(v) for v in m_.predict().index]
+                        except Exception:  # noqa
+                            continue
+                        ctx.check("absolute-horizon", mi == P, "absolute-horizon:member-forecasts-other-time-points-after-update:" + spec[0],
+                                  "a member of a composite fitted with an absolute horizon forecasts other time points after updates", member=type(m_).__name__, got=mi, expected=P)
+            ctx.tag("absolute-horizon-under-updates")
+    else:
+        ctx.seen("absolute-horizon", 0)
     ctx.event(spec=zoo.describe(spec), fh=fh, fh_in=fh_in, ops=[o[0] for o in case["ops"]], final_cutoff=cutoff, remembered=len(mem))
     ctx.tag("top:" + spec[0])
     for m in ("refit-equivalence", "params-frozen", "forecast-from-new-cutoff", "update_predict.equivalence", "update_predict.labels",
